@@ -11,6 +11,14 @@ CLAIMED = {
              "rational model of Region/Mesh; model tied to the code by exact-regime equality and tolerance-regime comparison "
              "of every observable of Mesh/Region named by the property.",
         note=NOTE + "NumPy floor/clip/linspace/isclose modelled by their documented contract."),
+    "C04": dict(
+        text="Theorems for every line length, mask, run position, step h and data: segment lemma (each maximal run of valid "
+             "cells is differentiated on its own; delimiters give 0; prefix/suffix independent), locality, short runs zero, "
+             "exactness of both stencils on polynomials of the admissible degree at every position of a run of any length, "
+             "linearity of the whole split-differentiate-combine pass, centred wrap-around differences and shift-equivariance on "
+             "fully valid rings; model tied to operators._split_diff_combine and Field.diff by exact equality on all masks up to "
+             "L=8/12 and on random n-d fields.",
+        note=NOTE + "np.gradient/np.convolve/np.pad(wrap) modelled by contract; ring_shift for masked rings is false of the code (known finding D17)."),
 }
 
 _PENDING = "machinery for this property not built yet in this round (model + theorems + correspondence are planned, see DESIGN.md section 6); not claimed until its check exists"
